@@ -44,26 +44,7 @@ SIG_CALL = "c10-readonly-call-changes-configured-binning"
 SIG_MEAS = "c10-measurement-changes-configured-binning"
 SIG_MEMBER = "c10-membership-after-readonly-calls"
 
-TRUSTED_LOOK = [
-    "look family: the call that changed the configured binning is named by comparing, on the python side, the bytes of the edges and "
-    "the closed side the configuration reports before and after every call (this words the signature and the report); the verdict is "
-    "the Coq code of c10_look_case on the exact rational values, and the final byte comparison with the harness's own copy",
-    "look family: matplotlib runs with the Agg backend (no display); what is drawn is not inspected",
-    "look family: the what-if reading handed to Coq (which plotted results share memory with the configuration's edges: np.shares_memory, "
-    "which style draws against the edges: 'step', HistData's default) is used for the wording of a failure only (flag 6)",
-]
-ASSUMPTIONS_LOOK = [
-    "look family: every patch holds an object strictly inside the created binning; redshifts are the created edges, midpoints, outside values "
-    "and the edges moved by (half) the x-offsets / factors the history uses, weights have few bits; a call of the history that raises is "
-    "counted (not a C10 failure) and more than 15% raising calls break an obligation; the harness never writes into an array handed out by "
-    "the library (it computes out of place or on copies), so every change of the configured binning is the library's own doing",
-    "look family: for edges generated by the implementation (zmin, zmax, num_bins, linear) the case is evaluated when the edges reported right "
-    "after creation are the exact linear ones (otherwise counted and skipped; C15 judges generated edges)",
-]
-RULE_LOOK = ("look cases = (closed side, weight column, created edges, how they were passed, kind of configuration object, per-patch (redshift, "
-             "weight) lists, first measurements, sequence of read-only calls with their arguments, final measurement, same / fresh catalog); "
-             "non-trivial when the history holds at least one call and some redshift lies on a created edge or within the largest shift the "
-             "history's arguments could produce (the objects whose bin changes when the edges move)")
+# TRUSTED / ASSUMPTIONS / RULE entries of this family are listed in props/c10.py (check.py reads them from the property's module)
 
 OFFSETS = [0.0625, -0.0625, 0.03125, -0.03125, 0.015625, 0.125, -0.125, 0.01, -0.005, 0.25]
 STYLES = [None, "point", "line", "step"]
